@@ -345,3 +345,92 @@ destruct (Z_lt_ge_dec d 0) as [Neg|Pos].
   destruct (step_by_k (ang g) d C) as (B & R & _).
   split; [exact R|]. split. intros _. rewrite B. unfold d. lia. intros H. unfold d in Pos. lia.
 Qed.
+
+(* ================= the constructor denotes p * PI / d ================= *)
+(* two-sided relative error of rounding, any sign, with the absolute underflow term *)
+Lemma rnd_rel x : Rabs (rnd x - x) <= / 9007199254740992 * Rabs x + bpow radix2 (-1075).
+Proof.
+destruct (error_N_FLT radix2 (3 - emax - prec) prec ltac:(unfold prec; lia) (fun z => negb (Z.even z)) x)
+  as (eps & eta & He & Ht & _ & E).
+change (round radix2 (FLT_exp (3 - emax - prec) prec) (Znearest (fun z : Z => negb (Z.even z))) x) with (rnd x) in E.
+rewrite E.
+replace (/ 2 * bpow radix2 (- prec + 1)) with (/ 9007199254740992) in He by (unfold prec; simpl; lra).
+assert (Ht' : Rabs eta <= bpow radix2 (-1075)).
+{ eapply Rle_trans. exact Ht. unfold emax, prec. replace (3 - 1024 - 53)%Z with (-1074)%Z by lia.
+  replace (bpow radix2 (-1074)) with (2 * bpow radix2 (-1075)) by (change 2 with (bpow radix2 1); rewrite <- bpow_plus; reflexivity).
+  pose proof (bpow_gt_0 radix2 (-1075)). lra. }
+replace (x * (1 + eps) + eta - x) with (x * eps + eta) by ring.
+eapply Rle_trans. apply Rabs_triang. rewrite Rabs_mult.
+apply Rplus_le_compat; [|exact Ht'].
+rewrite Rmult_comm. apply Rmult_le_compat_r. apply Rabs_pos. exact He.
+Qed.
+
+(* the constructor's computed total p * PI / d is within 2^-51 relative (plus underflow) of the
+   real quotient R p * R PI / R d: two roundings *)
+Lemma total_angle_value p d : fin p -> fin d -> R_ d <> 0 ->
+  Rabs (R_ p * R_ PI) <= bpow radix2 1000 -> Rabs (R_ p * R_ PI / R_ d) <= bpow radix2 998 -> bpow radix2 (-1000) <= Rabs (R_ d) ->
+  fin (total_angle p d) /\
+  Rabs (R_ (total_angle p d) - R_ p * R_ PI / R_ d) <= / 2251799813685248 * Rabs (R_ p * R_ PI / R_ d) + bpow radix2 (-70).
+Proof.
+intros Fp Fd Dnz B1 B2 Bd. unfold total_angle. destruct PIval as [_ FP].
+destruct (fmul_R p PI Fp FP B1) as [V1 F1].
+set (x := R_ p * R_ PI) in *. set (x1 := fmul p PI) in *.
+pose proof (rnd_rel x) as E1. rewrite <- V1 in E1.
+assert (Tp : 0 < bpow radix2 (-1075)) by apply bpow_gt_0.
+assert (T1 : bpow radix2 (-1075) <= bpow radix2 (-1000) * bpow radix2 (-75)) by (rewrite <- bpow_plus; apply bpow_le; lia).
+assert (Dp : 0 < Rabs (R_ d)) by (apply Rabs_pos_lt; exact Dnz).
+assert (Q1 : Rabs (R_ x1 / R_ d - x / R_ d) <= / 9007199254740992 * Rabs (x / R_ d) + bpow radix2 (-75)).
+{ replace (R_ x1 / R_ d - x / R_ d) with ((R_ x1 - x) / R_ d) by (field; exact Dnz).
+  unfold Rdiv at 1. rewrite Rabs_mult, Rabs_inv.
+  unfold Rdiv. rewrite Rabs_mult, Rabs_inv.
+  apply Rle_trans with ((/ 9007199254740992 * Rabs x + bpow radix2 (-1075)) * / Rabs (R_ d)).
+  apply Rmult_le_compat_r. left; now apply Rinv_0_lt_compat. exact E1.
+  rewrite Rmult_plus_distr_r. apply Rplus_le_compat. right; ring.
+  apply Rle_trans with (bpow radix2 (-1000) * bpow radix2 (-75) * / Rabs (R_ d)).
+  apply Rmult_le_compat_r. left; now apply Rinv_0_lt_compat. exact T1.
+  assert (bpow radix2 (-1000) * / Rabs (R_ d) <= 1).
+  { apply Rmult_le_reg_r with (Rabs (R_ d)); [exact Dp|]. rewrite Rmult_assoc, Rinv_l, Rmult_1_r, Rmult_1_l by lra. exact Bd. }
+  pose proof (bpow_gt_0 radix2 (-75)). nra. }
+assert (B75 : bpow radix2 (-75) <= 1) by (change 1 with (bpow radix2 0); apply bpow_le; lia).
+assert (B999 : bpow radix2 999 + bpow radix2 999 <= bpow radix2 1000).
+{ replace (bpow radix2 1000) with (2 * bpow radix2 999) by (change 2 with (bpow radix2 1); rewrite <- bpow_plus; reflexivity). lra. }
+assert (P999 : 1 <= bpow radix2 999) by (change 1 with (bpow radix2 0); apply bpow_le; lia).
+set (y := R_ x1 / R_ d) in *. set (t := x / R_ d) in *.
+assert (Yb : Rabs y <= Rabs t * (1 + / 9007199254740992) + bpow radix2 (-75)).
+{ replace y with (t + (y - t)) by ring. eapply Rle_trans. apply Rabs_triang. lra. }
+destruct (fdiv_R x1 d F1 Dnz) as [V2 F2].
+{ fold y. fold t in B2. pose proof (Rabs_pos t).
+  assert (Y2 : Rabs y <= 2 * Rabs t + 1) by nra.
+  assert (B998 : bpow radix2 998 + bpow radix2 998 = bpow radix2 999).
+  { replace (bpow radix2 999) with (2 * bpow radix2 998) by (change 2 with (bpow radix2 1); rewrite <- bpow_plus; reflexivity). lra. }
+  lra. }
+split; [exact F2|].
+pose proof (rnd_rel y) as E2. fold y in V2. rewrite <- V2 in E2.
+assert (T2 : bpow radix2 (-1075) <= bpow radix2 (-75)) by (apply bpow_le; lia).
+assert (T70 : 4 * bpow radix2 (-75) <= bpow radix2 (-70)).
+{ replace (bpow radix2 (-70)) with (32 * bpow radix2 (-75)) by (change 32 with (bpow radix2 5); rewrite <- bpow_plus; reflexivity).
+  pose proof (bpow_gt_0 radix2 (-75)). lra. }
+replace (R_ (fdiv x1 d) - t) with ((R_ (fdiv x1 d) - y) + (y - t)) by ring.
+eapply Rle_trans. apply Rabs_triang.
+pose proof (Rabs_pos t). pose proof (bpow_gt_0 radix2 (-75)). nra.
+Qed.
+
+(* Angle::new(p, d) denotes p * PI / d: the library total is within the 1e-10 boundary tolerance plus
+   two roundings of the real quotient (general path, non-negative total) *)
+Lemma new_value_pd p d : fin p -> fin d -> R_ d <> 0 ->
+  Rabs (R_ p * R_ PI) <= bpow radix2 1000 -> Rabs (R_ p * R_ PI / R_ d) <= bpow radix2 998 -> bpow radix2 (-1000) <= Rabs (R_ d) ->
+  fast_path p d = false -> 0 < R_ (total_angle p d) <= bpow radix2 43 ->
+  Rabs (theta (new p d) - R_ p * R_ PI / R_ d)
+    <= R_ eps10 + / 4503599627370496 + / 2251799813685248 * Rabs (R_ p * R_ PI / R_ d) + bpow radix2 (-70).
+Proof.
+intros Fp Fd Dnz B1 B2 Bd Hf Ht.
+destruct (total_angle_value p d Fp Fd Dnz B1 B2 Bd) as [Ft Vt].
+rewrite new_unfold, Hf.
+assert (L : lift_total (total_angle p d) = total_angle p d).
+{ unfold lift_total. rewrite flt_R by auto using fin_zero. rewrite R_zero. rewrite Rlt_bool_false by lra. reflexivity. }
+rewrite L.
+pose proof (from_total_value _ Ft Ht) as Vn.
+replace (theta (from_total (total_angle p d)) - R_ p * R_ PI / R_ d)
+  with ((theta (from_total (total_angle p d)) - R_ (total_angle p d)) + (R_ (total_angle p d) - R_ p * R_ PI / R_ d)) by ring.
+eapply Rle_trans. apply Rabs_triang. lra.
+Qed.
